@@ -38,14 +38,15 @@ def main():
         assert rc == 0, o
         os.makedirs(os.path.join(wt, '_mutant'))
         shutil.copy(os.path.join(d, 'demo.py'), os.path.join(wt, '_mutant', 'demo.py'))
-        rc0, o0 = sh(['/venv/bin/python', '_mutant/demo.py'], cwd=wt, timeout=1800)
+        penv = dict(os.environ, PYTHONPATH=wt)
+        rc0, o0 = sh(['/venv/bin/python', '_mutant/demo.py'], cwd=wt, timeout=1800, env=penv)
         out['demo_unchanged_rc'] = rc0
         rc, o = sh(['git', 'apply', patch], cwd=wt)
         out['patch_applies'] = rc == 0
         if rc != 0:
             out['apply_output'] = o[-500:]
             print(json.dumps(out, indent=1)); return
-        rc1, o1 = sh(['/venv/bin/python', '_mutant/demo.py'], cwd=wt, timeout=1800)
+        rc1, o1 = sh(['/venv/bin/python', '_mutant/demo.py'], cwd=wt, timeout=1800, env=penv)
         out['demo_changed_rc'] = rc1
         out['demo_changed_tail'] = o1[-400:]
         if '--skip-baseline' not in args:
